@@ -107,6 +107,12 @@ CLAIMED["C10"] = ("exploration",
     "Trusted: recover + child-death attribution; site normalisation (closure suffixes and line numbers stripped). A new way to reach an already listed site from the seeded fuzz slice is not reported. Liveness is bounded progress on bounded inputs.",
     "DESIGN.md §7 C10")
 
+CLAIMED["C11"] = ("exploration",
+    "Go race detector (race build of the harness and /repo) over barrier-released goroutines on shared cold values, plus a serial-equivalence oracle",
+    "Workloads: W1 shared cold values (fresh tuples' lazily cached names/buckets, relations' index caches, dicts, closures, compiled expressions) hit by 6-16 goroutines released together; W2 fresh worker processes racing first use of the process-wide lazies (std scopes, fix functions, implicit decoders) with lock-free re-reads while others initialise; W3 fan-out of the trie library's parallel callbacks forced with FROZEN_CONCURRENCY=0 (and one genuinely large 2^17-element set with the knob unset in thorough), with succeeding and failing callbacks; W4 concurrent Compile through one shared import cache (succeeding and failing imports). Race logs (halt_on_error=0, history_size=5) are parsed offline: a report with an arrai frame on either stack is a violation keyed by the unordered pair of innermost arrai frames; reports wholly inside the trie library are evidence only. Every goroutine's result must equal two serial runs on separately built copies. A deliberate harness canary race proves the detector and log pipeline are alive.",
+    "Trusted: the Go race detector (sees only executed interleavings; evidence reports overlap counts and goroutine ids). Races in memory owned by the trie library are outside the property.",
+    "DESIGN.md §7 C11")
+
 NOT_YET = "check not built yet in this session (planned, see DESIGN.md §7/§12); will be claimed once its monitor is silent on the unchanged tree and catches seeded breaks"
 
 def main():
